@@ -3,7 +3,29 @@
 From Coq Require Import Extraction ExtrOcamlBasic NArith List.
 From RsddV Require Import Base.Bdd Model.IteStd Model.BddOps Model.BddProg Model.Wmc Model.Semirings
   Model.SemHash Generated.Constants.
+From RsddV Require Model.SddVtree Model.SddOps Model.SddWmc Model.SddSemHash.
 Extraction Language OCaml.
+
+(* the SDD half: the builder model of C03 (Model/SddOps.v) and the two hashes of Model/SddSemHash.v.
+   The operation constructors of the SDD program language share their names with the BDD one's;
+   the driver builds SDD programs through these functions, so it does not depend on how the
+   extraction disambiguates them. *)
+Definition sdd_run_prog := SddOps.run_prog.
+Definition so_true : SddOps.sop := SddOps.OTrue.
+Definition so_false : SddOps.sop := SddOps.OFalse.
+Definition so_var (v : var) (b : bool) : SddOps.sop := SddOps.OVar v b.
+Definition so_neg (i : nat) : SddOps.sop := SddOps.ONeg i.
+Definition so_and (i j : nat) : SddOps.sop := SddOps.OAnd i j.
+Definition so_or (i j : nat) : SddOps.sop := SddOps.OOr i j.
+Definition so_xor (i j : nat) : SddOps.sop := SddOps.OXor i j.
+Definition so_iff (i j : nat) : SddOps.sop := SddOps.OIff i j.
+Definition so_ite (i j k : nat) : SddOps.sop := SddOps.OIte i j k.
+Definition so_cond (i : nat) (v : var) (b : bool) : SddOps.sop := SddOps.OCond i v b.
+Definition so_exists (i : nat) (v : var) : SddOps.sop := SddOps.OExists i v.
+Definition sdd_pool_of {A} (r : SddOps.res A) : option A := match r with SddOps.Ok x => Some x | _ => None end.
+
 Extraction "../ocaml/C11/model.ml" run_prog bstate_init bdd_eqb neg
   hash_m cached_hash cached_hashes weights_ok hash_match hneg
-  prime_U32_TINY prime_U32_SMALL prime_U64_LARGEST.
+  prime_U32_TINY prime_U32_SMALL prime_U64_LARGEST
+  sdd_run_prog sdd_pool_of so_true so_false so_var so_neg so_and so_or so_xor so_iff so_ite so_cond so_exists
+  SddOps.sneg SddSemHash.sdd_hash_m SddSemHash.sdd_cached_hash SddSemHash.sdd_cached_hashes.
